@@ -926,8 +926,12 @@ def walk_cases(ctx, env, n):
     args = [coq_list([coq_case(i, c) for i, c in part]) for part in chunks(list(enumerate(cases)), 60)]
     for strs in coq_eval('c13ws', IMP_SPEC, ['Eval vm_compute in (spec_walk_texts %s).\n' % a for a in args]):
         want += strs[0].split('@')[:-1]
+    # which dnextm the tree has: the pinned one (faults once the group is gone) or the repaired one
+    repaired = not any(x.startswith('FAULT') for x in real[0])
+    ctx.extra['dnextm_variant'] = ('vm_dnextm_fixed (a vanished group ends the iteration)' if repaired
+                                   else 'vm_dnextm (pinned: AttributeError once the group has vanished)')
     if ctx.model_runnable:
-        for strs in coq_eval('c13wm', IMP_MODEL, ['Eval vm_compute in (model_walk_texts %s).\n' % a for a in args]):
+        for strs in coq_eval('c13wm', IMP_MODEL, ['Eval vm_compute in (model_walk_texts %s %s).\n' % (coq_bool(repaired), a) for a in args]):
             mod += strs[0].split('@')[:-1]
     n_rep = 0
     for i, c in enumerate(cases):
